@@ -570,6 +570,22 @@ pub fn run(args: &[String]) -> Value {
                         }
                         rec.foreign = None;
                     }
+                    k2 @ ("xmodel" | "xretain" | "xnot" | "xquant") => {
+                        // the operand itself lives in ANOTHER environment
+                        let g = { let dens = if r.gen_bool(0.5) { 0.5 } else { 0.15 }; let tt: Vec<bool> = (0..(1usize << nv)).map(|_| r.gen_bool(dens)).collect(); rec.foreign_from_table(&tt, 1) };
+                        rec.foreign = Some("af");
+                        match k2 {
+                            "xmodel" => rec.rec_model(&g),
+                            "xretain" => rec.rec_retain(&g),
+                            "xnot" => rec.rec_not(&g),
+                            _ => {
+                                let len = r.gen_range(0..=3);
+                                let vs: Vec<usize> = (0..len).map(|_| r.gen_range(1..=nv)).collect();
+                                rec.rec_quant(if r.gen_bool(0.5) { "exists" } else { "all" }, &vs, &g)
+                            }
+                        }
+                        rec.foreign = None;
+                    }
                     "xite" => {
                         let g = { let tt: Vec<bool> = (0..(1usize << nv)).map(|_| r.gen_bool(0.5)).collect(); rec.foreign_from_table(&tt, 1) };
                         let h = { let tt: Vec<bool> = (0..(1usize << nv)).map(|_| r.gen_bool(0.5)).collect(); rec.foreign_from_table(&tt, 1) };
@@ -675,7 +691,7 @@ pub fn exec(args: &[String]) -> Value {
                 rec.rec_bin(c["op"].as_str().expect("op"), &a, &b)
             }
             "not" => {
-                let a = nd(&c["a"]);
+                let a = nd2(&c["a"], "a");
                 rec.rec_not(&a)
             }
             "ite" => {
@@ -683,7 +699,7 @@ pub fn exec(args: &[String]) -> Value {
                 rec.rec_ite(&a, &b, &cc)
             }
             k @ ("exists" | "all") => {
-                let f = nd(&c["f"]);
+                let f = nd2(&c["f"], "f");
                 let vs: Vec<usize> = c["vs"].as_array().expect("vs").iter().map(idx).collect();
                 rec.rec_quant(k, &vs, &f)
             }
@@ -697,11 +713,11 @@ pub fn exec(args: &[String]) -> Value {
                 rec.rec_cl(c["kind"].as_str().expect("kind"), &p, &q)
             }
             "model" | "infer" => {
-                let f = nd(&c["f"]);
+                let f = nd2(&c["f"], "f");
                 rec.rec_model(&f)
             }
             "retain" => {
-                let f = nd(&c["f"]);
+                let f = nd2(&c["f"], "f");
                 rec.rec_retain(&f)
             }
             other => panic!("harness: cannot exec record kind {:?}", other),
